@@ -151,3 +151,22 @@ class MeanRegressor(RegressorMixin, BaseEstimator):
     def predict(self, X):
         x = np.asarray(X)[:, 0]
         return np.array([self.table_.get(float(v), 0.0) for v in x], float)
+
+
+class MultiScore(ClassifierMixin, BaseEstimator):
+    """Scorer whose three prediction methods return DIFFERENT scores (columns 0, 1, 2 of X): decision_function, predict_proba[:,1], predict."""
+
+    def fit(self, X, y=None, **kw):
+        self.fitted_ = True
+        self.classes_ = np.array([0, 1])
+        return self
+
+    def decision_function(self, X):
+        return np.asarray(X)[:, 0].astype(float)
+
+    def predict_proba(self, X):
+        p = np.asarray(X)[:, 1].astype(float)
+        return np.column_stack([1 - p, p])
+
+    def predict(self, X):
+        return np.asarray(X)[:, 2].astype(float)
